@@ -366,13 +366,21 @@ impl<F: Write + Seek> Directory<F> {
                 let pred_left = self.dir_entry(predecessor_id).left_sibling;
                 self.dir_entry_mut(pred_parent_id).right_sibling = pred_left;
                 self.write_dir_entry(pred_parent_id)?;
+                if pred_left != consts::NO_STREAM {
+                    self.dir_entry_mut(pred_left).color = Color::Black;
+                    self.write_dir_entry(pred_left)?;
+                }
                 self.dir_entry_mut(predecessor_id).left_sibling = left_sibling;
             }
             self.dir_entry_mut(predecessor_id).right_sibling = right_sibling;
-            self.write_dir_entry(predecessor_id)?;
             predecessor_id
         };
-        // TODO: recolor nodes
+        // A node that moves up is made black, so that no two adjacent nodes
+        // end up red (this does not rebalance the tree).
+        if replacement_id != consts::NO_STREAM {
+            self.dir_entry_mut(replacement_id).color = Color::Black;
+            self.write_dir_entry(replacement_id)?;
+        }
 
         // Remove the entry.
         debug_assert_eq!(stream_ids.last(), Some(&stream_id));
